@@ -26,19 +26,19 @@ CHECKS = {
             'and the returned list is compared with the k best; complete over the bounded configuration spaces x k in {1,2,5,50}.', '4 C03'),
     'C04': ('exploration', 'bounded-exhaustive enumeration; series bit-exact from the raw frame, closed-form corr/impact, fresh-object verdicts', A_NOTE,
             'Every position of every result list in the bounded spaces (windows, exclusions, k) is recomputed from the raw input frame.', '4 C04'),
-    'C08': ('model_checking', 'explicit-state BFS to closure over the real diagnostics object (set/clear/read histories) vs fresh object', B_NOTE,
+    'C08': ('model_checking', 'explicit-state BFS to closure (stateless replay) over the real diagnostics object: set/clear/read histories incl. caller-owned buffers refilled in place; every read vs fresh object', B_NOTE,
             'All finite histories over the alphabet are covered because the BFS over full-attribute fingerprints reaches closure; every state and '
             'every read transition is compared with a freshly built object holding the model series.', '4 C08'),
-    'C09': ('exploration', 'bounded-exhaustive enumeration of configurations (FULL/DEV spaces), exception-type + termination oracle', A_NOTE,
+    'C09': ('exploration', 'bounded-exhaustive enumeration of configurations (FULL/DEV/REUSE spaces + EDGE of the accepted parameter domain), exception-type + termination oracle', A_NOTE,
             'Complete enumeration of eligibility x constraint configurations up to the stated bounds (every matrix for <=3 '
             'geos, <=2/3 deviations for 4-5 geos), both searches run on the real code; decides totality for every '
             'configuration in the space, which is where crashes hide (empty ranges, emptied groups).', '4 C09'),
-    'C10': ('model_checking', 'explicit-state BFS to closure over the real matched-markets object (query/search/retrieve histories) vs fresh object', B_NOTE,
+    'C10': ('model_checking', 'explicit-state BFS to closure over the real matched-markets object (query/search/retrieve histories, abandoned listings, environment and caller-side actions) vs fresh object', B_NOTE,
             'Per input, all call histories over 15 public operations are covered by closure of the BFS on the real object; each answer is compared '
             'with a fresh object, search_results with the last search, parameters and caller frames with their initial values.', '4 C10'),
     'C11': ('exploration', 'complete enumeration of eligibility matrices x size/ratio settings; three-way count agreement', A_NOTE,
             'All 7^G matrices for G<=3|4 and all class-count vectors for G=5|6; fast count = real generators = independent reference enumeration.', '4 C11'),
-    'C12': ('exploration', 'bounded-exhaustive base cases x 12 metamorphic presentations', A_NOTE,
+    'C12': ('exploration', 'bounded-exhaustive base cases x 20 metamorphic presentations (strict on row order / date shift / ID dtype, incl. a tied panel)', A_NOTE,
             'Every base configuration of the deviation-bounded spaces is re-run under all listed presentations; exact transformations (powers of two).', '4 C12'),
     'C13': ('exploration', 'bounded-exhaustive enumeration; greedy vs exhaustive vs brute-force feasible set on identical inputs', A_NOTE,
             'Both searches run on every configuration of the bounded spaces without budget/share; greedy designs must lie in the enumerated feasible set and not beat its best.', '4 C13'),
@@ -59,9 +59,9 @@ CHECKS = {
             'All frames x cost scenarios x (tails, level, threshold, random_state) of the stated lattice; fixed-cost identities against the closed form, determinism by repeated calls, equivariance by re-running on rescaled frames.', '4 C07'),
     'C18': ('exploration', 'complete enumeration of cooldown-frame lattice x metric x level x tails incl. control swings and unassigned-period dates', A_NOTE,
             'All frames of the stated lattice; every clause of the statement against the closed-form posterior; the known finding K1 is keyed by a reference-model condition.', '4 C18'),
-    'C19': ('exploration', 'complete enumeration of frames (geos, planted noisy geo / outlier date, names, 3 row orders); consistency oracle', A_NOTE,
+    'C19': ('exploration', 'complete enumeration of frames (geos, planted noisy geo / outlier date, names, outside-experiment and twin geos) x 7 presentations / object states; consistency oracle', A_NOTE,
             'All frames of the stated lattice fitted in three row orders; screened data and analysis series recomputed from the input and the reported removals.', '4 C19'),
-    'C20': ('exploration', 'complete enumeration of all lists of <=2|3 entries over 44 entries + malformed embeddings vs date-ordinal reference', A_NOTE,
+    'C20': ('exploration', 'complete enumeration of all lists of <=2|3 entries over 44 entries, deeper lists on small alphabets, two-call histories, malformed embeddings vs date-ordinal reference', A_NOTE,
             'Every list over the entry alphabet up to the length bound, so every order/duplication/overlap pattern at that length is covered.', '4 C20'),
 }
 
